@@ -148,21 +148,21 @@ Proof.
   - destruct (build e); cbn [obind]; intuition (try discriminate; auto).
 Qed.
 
-(* the objects that programs build: leaves vanish from index max_len e on *)
-Lemma build_vanish e : forall g, build e = Some g -> leaves_vanish (max_len e) g.
+(* the objects that programs build: leaves vanish from index max_len e on, i.e. above max_len e - 1 *)
+Lemma build_vanish e : forall g, build e = Some g -> leaves_vanish (pred (max_len e)) g.
 Proof.
   induction e; intros g; cbn [build max_len].
   - intros [= <-]. apply from_coeffs_vanish. lia.
   - destruct (build e1) as [f1|], (build e2) as [f2|]; cbn [obind]; try discriminate. intros [= <-].
-    split; [apply (leaves_vanish_mono (max_len e1)) | apply (leaves_vanish_mono (max_len e2))]; auto; lia.
+    split; [apply (leaves_vanish_mono (pred (max_len e1))) | apply (leaves_vanish_mono (pred (max_len e2)))]; auto; lia.
   - destruct (build e) as [f|]; cbn [obind]; try discriminate. intros [= <-].
-    split; [apply (leaves_vanish_mono (max_len e)); auto; lia | apply from_coeffs_vanish; simpl; lia].
+    split; [apply (leaves_vanish_mono (pred (max_len e))); auto; lia | apply from_coeffs_vanish; simpl; lia].
   - destruct (build e1) as [f1|], (build e2) as [f2|]; cbn [obind]; try discriminate. intros [= <-].
-    split; [apply (leaves_vanish_mono (max_len e1)) | apply scale_vanish, (leaves_vanish_mono (max_len e2))]; auto; lia.
+    split; [apply (leaves_vanish_mono (pred (max_len e1))) | apply scale_vanish, (leaves_vanish_mono (pred (max_len e2)))]; auto; lia.
   - destruct (build e) as [f|]; cbn [obind]; try discriminate. intros [= <-].
-    split; [apply (leaves_vanish_mono (max_len e)); auto; lia | apply from_coeffs_vanish; simpl; lia].
+    split; [apply (leaves_vanish_mono (pred (max_len e))); auto; lia | apply from_coeffs_vanish; simpl; lia].
   - destruct (build e1) as [f1|], (build e2) as [f2|]; cbn [obind]; try discriminate. intros [= <-].
-    split; [apply (leaves_vanish_mono (max_len e1)) | apply (leaves_vanish_mono (max_len e2))]; auto; lia.
+    split; [apply (leaves_vanish_mono (pred (max_len e1))) | apply (leaves_vanish_mono (pred (max_len e2)))]; auto; lia.
   - destruct (build e) as [f|]; cbn [obind]; try discriminate. intros [= <-]. apply scale_vanish; auto.
   - destruct (build e) as [f|]; cbn [obind]; try discriminate. unfold gdiv. destruct (Qeq_bool n 0); [discriminate|].
     intros [= <-]. apply scale_vanish; auto.
@@ -197,7 +197,7 @@ Theorem build_eval e g x : build e = Some g -> (max_len e <= S max_term)%nat ->
   forall N, (degb max_term g <= N)%nat -> eval g x == sumn (S N) (fun i => sem e i * qpow x i).
 Proof.
   intros Hb Hl N HN. unfold eval.
-  assert (V : leaves_vanish max_term g) by (apply (leaves_vanish_mono (max_len e)); [lia | apply build_vanish; exact Hb]).
+  assert (V : leaves_vanish max_term g) by (apply (leaves_vanish_mono (pred (max_len e))); [lia | apply build_vanish; exact Hb]).
   rewrite (eval_to_poly max_term max_term g x V (le_n _) N HN).
   apply sumn_ext. intros i _. rewrite (build_coeff e g Hb). reflexivity.
 Qed.
@@ -206,6 +206,6 @@ Qed.
 Theorem tie_eval_is_eval e g x : build e = Some g -> eval_to (Nat.min (max_len e) max_term) g x == eval g x.
 Proof.
   intros Hb. unfold eval. destruct (le_lt_dec (max_len e) max_term) as [Hl|Hl].
-  - rewrite Nat.min_l by exact Hl. apply (eval_to_cutoff (max_len e)); [apply build_vanish; exact Hb | lia | exact Hl].
+  - rewrite Nat.min_l by exact Hl. apply (eval_to_cutoff (pred (max_len e))); [apply build_vanish; exact Hb | lia | lia].
   - rewrite Nat.min_r by lia. reflexivity.
 Qed.
